@@ -73,6 +73,8 @@ func c19value(i int, p orb.Point, kind int) orb.Pointer {
 	return &qitem{id: i, pt: p}
 }
 
+var c19stale orb.Pointer = &qitem{id: -7, pt: orb.Point{-1, -1}}
+
 func c19run(t *quadtree.Quadtree, q *c19query, b []orb.Pointer) []orb.Pointer {
 	switch q.kind {
 	case 0:
@@ -264,6 +266,10 @@ func init() {
 						case 1:
 							return empty
 						case 2:
+							if len(last) == 0 {
+								// nothing left over from an earlier answer: a buffer that still holds three pointers from elsewhere
+								return []orb.Pointer{c19stale, c19stale, c19stale, nil, nil, nil, nil, nil}[:3]
+							}
 							return last
 						}
 						return nil
